@@ -1,7 +1,7 @@
 """C17 - WebSocket sessions follow the ASGI state machine and report misuse and errors."""
 PROP = 'C17'
-LEAN_MODULES = ['FalconModel.WsProofs']
-DRIVERS = ['wsdriver']
+LEAN_MODULES = ['FalconModel.WsProofs', 'FalconModel.WsPayloadProofs']
+DRIVERS = ['wsdriver', 'wpdriver']
 THEOREMS = [
     # legality of everything the server accepts, for every script / inbox / fault / flag sequence
     'Ws.emitted_trace_legal', 'Ws.emitted_trace_legal_mw',
@@ -21,6 +21,19 @@ THEOREMS = [
     'Ws.SaneB.congr', 'Ws.SaneB.snoc', 'Ws.SaneB.frame', 'Ws.send_frame', 'Ws.closeGo_frame', 'Ws.guarded_no_reason', 'Ws.close_sane',
     'Ws.accept_sane', 'Ws.sendMsg_sane', 'Ws.receive_frame', 'Ws.recv_sane', 'Ws.op_sane', 'Ws.runScript_sane', 'Ws.cleanup_sane',
     'Ws.handleException_sane', 'Ws.handle_sane',
+    # payload-carrying refinement (WsPayload.lean): "text/binary/media payloads arrive unchanged in order"
+    'Wp.sent_payloads_in_order_unchanged', 'Wp.received_payloads_in_order_unchanged', 'Wp.received_payloads_in_order_unchanged_buffered',
+    'Wp.wrong_payload_type_errors_exact', 'Wp.media_roundtrip', 'Wp.message_roundtrip', 'Wp.project_to_Ws',
+    'Wp.send_ok', 'Wp.msg_op_exact', 'Wp.send_media_serialize_error', 'Wp.send_script_exact', 'Wp.sentBy_of_wire',
+    'Wp.recv_msg', 'Wp.recv_disconnect', 'Wp.recv_closed', 'Wp.recv_handshake', 'Wp.payload_type_error_iff', 'Wp.recv_script_exact',
+    'Wp.decode_matching', 'Wp.harness_inverse', 'Wp.buffered_handed_prefix',
+    # the refinement, operation by operation, and the kind-level theorems transferred through it
+    'Wp.proj_asgiSend', 'Wp.proj_send_', 'Wp.proj_requireAccepted', 'Wp.proj_accept', 'Wp.proj_stopPump', 'Wp.proj_closeGo', 'Wp.proj_close',
+    'Wp.proj_sendKind', 'Wp.proj_recv', 'Wp.projOut_outOf', 'Wp.proj_op', 'Wp.send__inbox', 'Wp.accept_inbox', 'Wp.stopPump_inbox',
+    'Wp.closeGo_inbox', 'Wp.close_inbox', 'Wp.recv_inbox_sub', 'Wp.op_inbox_sub', 'Wp.InboxWf.op', 'Wp.proj_runScript', 'Wp.InboxWf.close',
+    'Wp.proj_cleanup', 'Wp.cleanup_wf', 'Wp.proj_handleException', 'Wp.proj_handle', 'Wp.projLog_length', 'Wp.projLog_dropLast',
+    'Wp.ScriptOk.append', 'Wp.ScriptOk.raise', 'Wp.proj_rejectFirst', 'Wp.okEvents_proj',
+    'Wp.emitted_trace_legal', 'Wp.closed_unless_escaped', 'Wp.reason_only_if_supported',
 ]
 STATEMENTS = {
     'Ws.emitted_trace_legal': 'for every configuration (spec version, close-reason table, error_close_code, custom error handler script), responder script with per-op catch flags, every sequence of observed disconnect-flag values, inbox, and every position and kind of a failing server send: the events the server accepted form a word of connecting -accept-> open -send*-> open -close-> done (connecting -close-> done is the 403 denial), i.e. <= 1 accept, data only between accept and close, <= 1 close, nothing after close',
@@ -39,6 +52,15 @@ STATEMENTS = {
     'Ws.unexpected_error_close_code': 'any other exception (no custom handler) closes with ws_options.error_close_code, or with 3011 when that code is not a valid close code',
     'Ws.reason_only_if_supported': 'when the server\'s spec version has no close reasons (< 2.3), no close event of the session - issued by the responder, a middleware, an error handler or the framework itself - carries a reason; for every script, inbox, fault, routing outcome and flag sequence',
     'Ws.rejectFirst_reason': 'the close 1011 answering a first event that is not websocket.connect carries a reason iff the server supports it',
+    'Wp.sent_payloads_in_order_unchanged': 'for every media-handler pair and every responder script of send_text / send_data / send_media calls (any per-call catch behaviour) on an accepted, connected socket with a working server send, each message listed with its wire form (text verbatim under the text key, bytes verbatim under the bytes key, a document serialized by the handler of its payload_type under that type\'s key): the send calls the script adds are exactly those websocket.send events, in order, each once, each successful; every call returns None, nothing escapes, the socket stays ACCEPTED',
+    'Wp.received_payloads_in_order_unchanged': 'for every client script msgs ++ tail of well-formed messages (one payload; the other key absent or None) and every script of receive calls, the i-th matching the i-th message (receive_text/text, receive_data/binary, receive_media/a message its handler deserializes), any catch behaviour, any observed disconnect flags: the values returned are the payloads of msgs - verbatim for text/data, the handler\'s document for media - in order, each once; nothing is sent, exactly tail is left; if tail starts with the disconnect, the next receive (no earlier one) raises WebSocketDisconnected(code or 1000) and the socket is CLOSED with that code (events reach _receive in inbox order: max_receive_queue = 0)',
+    'Wp.received_payloads_in_order_unchanged_buffered': 'the same for max_receive_queue > 0, composed with C18 (Wb.fifo_lossless_once): for every capacity > 0 and every pump/application schedule accepted by the C18 model (no stop()), if the server delivered the client script in order and n events were handed out by _BufferedReceiver.receive(), the n matching receive calls return the payloads of the first n client messages, in order, each once',
+    'Wp.wrong_payload_type_errors_exact': 'the (message, receive op) table for an event {text: t, bytes: b}, each key absent / None / a value: receive_text returns t verbatim iff t has a value else PayloadTypeError (bytes-only message, text: None, empty event), whatever b holds; receive_data symmetrically; receive_media deserializes t with the TEXT handler whenever t has a value, else b with the BINARY handler, else PayloadTypeError, and the handler\'s own error (invalid JSON) is what the caller sees; in every case the message is consumed, nothing is sent, the state is kept',
+    'Wp.media_roundtrip': 'send_media(d, ty) on an accepted connected socket hands exactly one event (the serialized document under ty\'s key) to the server; when that frame is delivered to a peer socket (other key absent or None), the peer\'s receive_media() returns d - given the handlers\' inverse law at d and a serialize that does not raise',
+    'Wp.message_roundtrip': 'the same for all three: send_text(p) -> receive_text() = p, send_data(p) -> receive_data() = p, send_media(d) -> receive_media() = d',
+    'Wp.harness_inverse': 'the handlers the correspondence runs with (stock JSONHandlerWS as modelled for C12, and the msgpack-like binary stub) satisfy the inverse law at every well-formed JSON document, so media_roundtrip is not vacuous',
+    'Wp.project_to_Ws': 'refinement: forgetting the payloads maps the whole payload-carrying session (_handle_websocket with middleware scripts, error handlers, custom handler, every routing outcome) to the session of the kind-level model Ws on the projected inputs - same final state and flags, same sequence of send calls (kinds, codes, which raised), same per-op outcomes, same escaped exception; so the 57 Ws theorems are statements about the payload model (Wp.emitted_trace_legal, Wp.closed_unless_escaped, Wp.reason_only_if_supported are transferred explicitly). Hypotheses: well-formed client events, handlers of the stock shape, scripts serialize only serializable documents',
+    'Wp.send_media_serialize_error': 'a serialize that raises: the handler\'s exception reaches the caller, nothing is handed to the server, the socket is unchanged, whatever the disconnect flag says (the event dict is built before _send runs)',
     'Ws.send_spec': '_send either hands exactly the event to the server and keeps the state (which was not CLOSED), or hands nothing that the server accepts, raises, and keeps the state or moves it to CLOSED',
 }
 TRUSTED = [
@@ -51,6 +73,8 @@ ASSUMPTIONS = [
     'responder / middleware / error-handler scripts are straight-line op lists with per-op catch-and-continue of the documented errors (OperationNotAllowed, WebSocketDisconnected, PayloadTypeError, ValueError); ops: accept (headers, subprotocol, non-str subprotocol), close (9 code kinds incl. non-int, with/without reason), send text/data/media, receive text/data/media, raise HTTPError/HTTPStatus/RuntimeError/app exception',
     'a custom error handler that returns without closing leaves the socket to the ASGI server (application responsibility); the close-always rule is checked for the default handlers and for custom handlers that close or re-raise HTTPError/HTTPStatus',
     'send_text/send_data argument type checks (TypeError) and accept-header validation (sec-websocket-protocol) are not part of the model',
+    'payload model: a str payload is a list of Unicode scalar values (no lone surrogates), bytes(payload) of bytes/bytearray/memoryview is the payload; the media handlers are arbitrary functions that may raise (theorems), '
+    'instantiated in the driver with the C12 JSON model (no floats) for JSONHandlerWS and a stub "00 4A + UTF-8 JSON" binary handler / MissingDependencyHandler (msgpack is not installed)',
 ]
 RULE = ('random sessions: responder scripts of 0..8 ops x client scripts of 0..6 messages (valid JSON text, non-JSON text, binary) + optional disconnect '
         '(with/without code) x failing send index 0..4 of 5 kinds (OSError, OSError from "received 1001", "code = 1000 (OK)", subprotocol rejection, RuntimeError) '
@@ -58,9 +82,9 @@ RULE = ('random sessions: responder scripts of 0..8 ops x client scripts of 0..6
         'x route (responder / unrouted / no on_websocket) x first event not connect x error_close_code valid/reserved/<1000 x random yields in the server callables; '
         'plus every script of length <= 2 (quick) / <= 3 (thorough) over 13 ops x 3 client scripts x fault index x queue 0/4; '
         'non-trivial = at least one event was handed to the server\'s send; distinct = distinct driver line (configuration + scripts + observed flags)')
-PARTIAL = ('payloads_in_order_unchanged is not a Lean theorem: the model abstracts payloads to their kind (text / valid-JSON text / binary) and consumes the client script in order by construction; '
-           'payload identity and order are enforced by the statement oracle on the real code; the disconnect flag is an input of the model (observed on the real object and fed to the driver), '
-           'its timing is C18\'s subject')
+PARTIAL = ('the disconnect flag is an input of the model (observed on the real object and fed to the driver), its timing is C18\'s subject; '
+           'received_payloads_in_order_unchanged_buffered composes with C18\'s trace-inclusion model for sessions without stop() (a close() stops the pump: the events it held are dropped by design); '
+           'project_to_Ws is stated for well-formed client events and stock-shaped handlers (the kind-level model has no kind for an event with no or two payloads; the payload model covers them directly)')
 JOBS = {'quick': 4, 'thorough': 16}
 
 CODES = ['n', 'n', '1000', '3001', '4999', '1011', '999', '1005', '1500', 'x', '3000+', 'n+',
@@ -72,16 +96,125 @@ FAULTS = ['os', 'os', 'os', 'os1001', 'ok1000', 'sub', 'other', 'other']
 DISC = ['d1001', 'dn', 'd1000', 'd4000']
 
 
+# ---------------------------------------------------------------- payloads
+TEXT_ALPHABET = ['a', 'Z', '7', ' ', '"', '\\', '/', '\n', '\t', '\r', '\x00', '\x1f', '\x7f', '\x80', '\xe9', '\xdf', '\u20ac', '\u2028', '\ufeff', '\ufffd',
+                 '\U0001f600', '\U0010ffff', '{', '}', '[', ']', ':', ',', "'"]
+
+
+def gen_text(rnd, maxlen=10):
+    return ''.join(rnd.choice(TEXT_ALPHABET) for _ in range(rnd.choice([0, 1, 1, 2, 3, 5, maxlen])))
+
+
+def gen_bytes(rnd):
+    return bytes(rnd.choice([0, 0, 0xff, 0x80, 0x4a, 0x7b, 0xc3, 0xa9, 0xed, 0xa0, rnd.randrange(256)]) for _ in range(rnd.choice([0, 1, 2, 3, 5, 9])))
+
+
+def gen_doc(rnd, depth=0):
+    """a JSON document of the C12 type (no floats): None | bool | int | str | list | dict with distinct str keys"""
+    k = rnd.randrange(10 if depth < 2 else 6)
+    if k == 0: return None
+    if k == 1: return rnd.random() < 0.5
+    if k in (2, 3): return rnd.choice([0, -1, 7, 2 ** 31, -2 ** 63, 10 ** 20, rnd.randrange(-1000, 1000)])
+    if k in (4, 5): return gen_text(rnd, 6)
+    if k in (6, 7): return [gen_doc(rnd, depth + 1) for _ in range(rnd.randrange(4))]
+    d = {}
+    for _ in range(rnd.randrange(4)):
+        d[gen_text(rnd, 3)] = gen_doc(rnd, depth + 1)
+    return d
+
+
+def dumps(doc):
+    import json
+    return json.dumps(doc, ensure_ascii=False)
+
+
+def stub_encode(doc):
+    return b'\x00J' + dumps(doc).encode('utf-8')
+
+
+def gen_invalid_json(rnd):
+    """texts that are not JSON (for CPython's decoder and for the C12 model alike)"""
+    k = rnd.randrange(8)
+    if k == 0: return ''
+    if k == 1: return 'x' + gen_text(rnd)
+    if k == 2:
+        d = gen_doc(rnd, 2)
+        return dumps(d if isinstance(d, (list, dict, str)) else [d])[:-1]
+    if k == 3: return '{"a": }'
+    if k == 4: return '[1,]'
+    if k == 5: return 'nul'
+    if k == 6: return "{'a': 1}"
+    return dumps(gen_doc(rnd, 1)) + ' ' + rnd.choice(['x', ']', '}', ',', '1'])
+
+
+def pad_ws(rnd, s):
+    ws = [' ', '\n', '\t', '\r']
+    return ''.join(rnd.choice(ws) for _ in range(rnd.choice([0, 0, 0, 1, 2]))) + s + ''.join(rnd.choice(ws) for _ in range(rnd.choice([0, 0, 1])))
+
+
+def default_event(tok, k):
+    """the fixed payloads of the exhaustive small-script sessions"""
+    import json
+    if tok == 't1': return {'type': 'websocket.receive', 'text': json.dumps({'i': k})}
+    if tok == 't0': return {'type': 'websocket.receive', 'text': f'msg{k}'}
+    if tok == 'b': return {'type': 'websocket.receive', 'bytes': b'\x81\xa1i' + bytes([k])}
+    if tok == 'dn': return {'type': 'websocket.disconnect'}
+    return {'type': 'websocket.disconnect', 'code': int(tok[1:])}
+
+
+def gen_event(rnd, tok, binh):
+    """a client event of the kind `tok` with a random payload; the key of the other payload type is absent or None"""
+    if tok[0] == 'd':
+        return default_event(tok, 0)
+    ev = {'type': 'websocket.receive'}
+    other = rnd.choice(['absent', 'absent', 'none'])
+    if tok == 't1':
+        ev['text'] = pad_ws(rnd, dumps(gen_doc(rnd)))
+    elif tok == 't0':
+        ev['text'] = gen_invalid_json(rnd)
+    elif tok == 'b':
+        # with the stub BINARY handler installed the kind-level model needs a payload the stub can deserialize
+        ev['bytes'] = stub_encode(gen_doc(rnd)) if binh else rnd.choice([gen_bytes(rnd), stub_encode(gen_doc(rnd))])
+    # ---- kinds only the payload model covers
+    elif tok == 'bx':      # arbitrary bytes: the stub handler raises ValueError on a bad magic / bad UTF-8 / bad JSON
+        ev['bytes'] = rnd.choice([gen_bytes(rnd), b'\x00J' + gen_bytes(rnd), b'\x00J' + gen_invalid_json(rnd).encode(), stub_encode(gen_doc(rnd))])
+    elif tok == 'e':       # no payload at all: no key, a None key, two None keys
+        for key in rnd.choice([(), ('text',), ('bytes',), ('text', 'bytes')]):
+            ev[key] = None
+        return ev
+    elif tok == 'tb':      # both payloads
+        ev['text'] = rnd.choice([pad_ws(rnd, dumps(gen_doc(rnd))), gen_invalid_json(rnd), gen_text(rnd)])
+        ev['bytes'] = rnd.choice([gen_bytes(rnd), stub_encode(gen_doc(rnd))])
+        return ev
+    else:
+        raise AssertionError(tok)
+    if other == 'none':
+        ev['bytes' if 'text' in ev else 'text'] = None
+    return ev
+
+
+def gen_pay(rnd):
+    """the payloads a send step submits (which one is used depends on the op and its variant)"""
+    return {'text': gen_text(rnd), 'data': gen_bytes(rnd), 'doc': gen_doc(rnd)}
+
+
+def default_pay(j):
+    return {'text': f'out{j}', 'data': bytes([j % 256, 0xff, 0]), 'doc': {'j': j}}
+
+
+WP_OPS = ['St', 'St', 'Sb', 'Sb', 'Sx', 'Sn', 'Rt', 'Rt', 'Rd', 'Rd', 'Rm', 'Rm', 'Rm', 'A000', 'Cn', 'C1001', 'B']
+
+
 def gen_random(rnd):
     def steps(n, pool=OPS, catch_p=0.7):
         def lvl():
             x = rnd.random()
             return 1 if x < catch_p - 0.1 else (2 if x < catch_p + 0.03 else 0)
-        return [{'tok': rnd.choice(pool), 'catch': lvl(), 'var': rnd.randrange(4)} for _ in range(n)]
+        return [{'tok': rnd.choice(pool), 'catch': lvl(), 'var': rnd.randrange(4), 'pay': gen_pay(rnd)} for _ in range(n)]
     q = rnd.choice([0, 4])
     script = steps(rnd.randint(0, 8))
     if script and rnd.random() < 0.6:
-        script[0] = {'tok': 'A000', 'catch': 1, 'var': 0}
+        script[0] = {'tok': 'A000', 'catch': 1, 'var': 0, 'pay': gen_pay(rnd)}
     inbox = [rnd.choice(['t1', 't0', 'b', 't1', 'b']) for _ in range(rnd.choice([0, 1, 2, 3, 4, 6]))]
     starve = 'late'
     if q and rnd.random() < 0.4:
@@ -98,15 +231,37 @@ def gen_random(rnd):
         kind = rnd.choice(['close', 'sendclose', 'swallow', 'http', 'status', 'raise', 'nows', 'nows_http'])
         hs = {'close': [('C4002', 0)], 'sendclose': [('St', 1), ('Cn', 0)], 'swallow': [], 'http': [('H409', 0)],
               'status': [('T204', 0)], 'raise': [('X', 0)], 'nows': [], 'nows_http': [('H410', 0)]}[kind]
-        custom = {'ws': not kind.startswith('nows'), 'steps': [{'tok': t, 'catch': c, 'var': 0} for t, c in hs]}
+        custom = {'ws': not kind.startswith('nows'), 'steps': [{'tok': t, 'catch': c, 'var': 0, 'pay': gen_pay(rnd)} for t, c in hs]}
+    binh = rnd.random() < 0.5
     return {
         'ver': rnd.choice(['2.0', '2.1', '2.2', '2.3', '2.4']), 'q': q, 'first': 0 if rnd.random() < 0.03 else 1,
         'route': rnd.choice(['r'] * 8 + ['u', 'n']),
         'mwreq': steps(rnd.randint(0, 2), OPS, 0.8) if mw and rnd.random() < 0.6 else [],
         'mwres': steps(rnd.randint(0, 2), OPS, 0.8) if mw and rnd.random() < 0.6 else [],
         'mw_present': mw, 'script': script, 'custom': custom, 'inbox': inbox, 'starve': starve,
+        'events': [gen_event(rnd, t, binh) for t in inbox], 'wp_only': False,
         'fail': rnd.choice([None, None, None, 0, 1, 2, 3, 4]), 'fault': rnd.choice(FAULTS),
-        'err': rnd.choice([1011, 1011, 1011, 4000, 999, 1005, 1006, 1007, 1014, 1015, 1999, 2000, 1004, 1003]), 'binh': rnd.random() < 0.5,
+        'err': rnd.choice([1011, 1011, 1011, 4000, 999, 1005, 1006, 1007, 1014, 1015, 1999, 2000, 1004, 1003]), 'binh': binh,
+        'yields': rnd.randrange(1 << 30),
+    }
+
+
+def gen_payload_session(rnd):
+    """sessions aimed at the payload plumbing, incl. what only the payload model covers (`wp_only`): client events with no or two
+    payloads, bytes the stub BINARY handler rejects, documents the serializer rejects, send_media(BINARY) without msgpack"""
+    q = rnd.choice([0, 0, 4])
+    binh = rnd.random() < 0.6
+    n_in = rnd.choice([1, 2, 3, 4, 6, 8])
+    inbox = [rnd.choice(['t1', 't1', 't0', 'b', 'b', 'bx', 'bx', 'e', 'tb']) for _ in range(n_in)]
+    inbox.append(rnd.choice(DISC))
+    script = [{'tok': 'A000', 'catch': 1, 'var': 0, 'pay': gen_pay(rnd)}]
+    for _ in range(rnd.randint(1, 10)):
+        script.append({'tok': rnd.choice(WP_OPS), 'catch': rnd.choice([1, 1, 1, 2, 2, 0]), 'var': rnd.randrange(4), 'pay': gen_pay(rnd)})
+    return {
+        'ver': rnd.choice(['2.1', '2.3', '2.4']), 'q': q, 'first': 1, 'route': 'r', 'mwreq': [], 'mwres': [], 'mw_present': False,
+        'script': script, 'custom': None, 'inbox': inbox, 'starve': 'late',
+        'events': [gen_event(rnd, t, binh) for t in inbox], 'wp_only': True,
+        'fail': rnd.choice([None, None, None, None, 1, 2, 3]), 'fault': rnd.choice(FAULTS), 'err': 1011, 'binh': binh,
         'yields': rnd.randrange(1 << 30),
     }
 
@@ -120,8 +275,10 @@ def gen_exhaustive(maxlen):
                 for fail in (None, 0, 1, 2):
                     for q in (0, 4):
                         yield {'ver': '2.3' if (l + len(inbox)) % 2 else '2.1', 'q': q, 'first': 1, 'route': 'r', 'mwreq': [], 'mwres': [],
-                               'mw_present': False, 'script': [{'tok': t, 'catch': 2 if q else 1, 'var': 0} for t in toks], 'custom': None,
-                               'inbox': list(inbox), 'starve': 'late', 'fail': fail, 'fault': 'os' if q == 0 else 'other', 'err': 1011,
+                               'mw_present': False,
+                               'script': [{'tok': t, 'catch': 2 if q else 1, 'var': 0, 'pay': default_pay(j)} for j, t in enumerate(toks)],
+                               'custom': None, 'inbox': list(inbox), 'events': [default_event(t, k) for k, t in enumerate(inbox)], 'wp_only': False,
+                               'starve': 'late', 'fail': fail, 'fault': 'os' if q == 0 else 'other', 'err': 1011,
                                'binh': False, 'yields': 12345 + l}
 
 
@@ -135,16 +292,21 @@ def run(ctx):
     import falcon.asgi.ws as wsmod
     from falcon import errors, media
     from falcon.constants import WebSocketPayloadType
+    from runner import hx
 
     class Boom(Exception):
         pass
 
     class BinHandler(media.BinaryBaseHandlerWS):
+        """msgpack-like stub (msgpack is not installed): magic 00 4A + the UTF-8 JSON text; deserialize is its inverse"""
         def serialize(self, m):
-            return b'\x00J' + json.dumps(m, sort_keys=True).encode()
+            return b'\x00J' + json.dumps(m, ensure_ascii=False).encode('utf-8')
 
         def deserialize(self, payload):
-            return ('bin', bytes(payload))
+            payload = bytes(payload)
+            if payload[:2] != b'\x00J':
+                raise ValueError('bad magic')
+            return json.loads(payload[2:].decode('utf-8'))
 
     def exname(e):
         if isinstance(e, errors.OperationNotAllowed): return 'ONA'
@@ -159,13 +321,6 @@ def run(ctx):
         if isinstance(e, asyncio.TimeoutError): return 'TIMEOUT'
         return 'PY'
     CATCH = (errors.OperationNotAllowed, errors.WebSocketDisconnected, errors.PayloadTypeError, ValueError)
-
-    def client_event(tok, k):
-        if tok == 't1': return {'type': 'websocket.receive', 'text': json.dumps({'i': k})}
-        if tok == 't0': return {'type': 'websocket.receive', 'text': f'msg{k}'}
-        if tok == 'b': return {'type': 'websocket.receive', 'bytes': b'\x81\xa1i' + bytes([k])}
-        if tok == 'dn': return {'type': 'websocket.disconnect'}
-        return {'type': 'websocket.disconnect', 'code': int(tok[1:])}
 
     def mkfault(kind):
         if kind == 'os': return OSError('send failed')
@@ -185,11 +340,31 @@ def run(ctx):
             return f"cls:{m.get('code')}:{1 if 'reason' in m else 0}"
         return 'unknown:' + str(ty)
 
+    def render_wp(m):
+        """a send event with its payload: which key carries it, and the payload itself (hex; text as UTF-8)"""
+        if m.get('type') != 'websocket.send':
+            return render(m)
+        keys = sorted(k for k in m if k != 'type')
+        if keys == ['text'] and type(m['text']) is str:
+            return 'snd:t:' + hx(m['text'].encode('utf-8'))
+        if keys == ['bytes'] and type(m['bytes']) is bytes:
+            return 'snd:b:' + hx(m['bytes'])
+        return 'snd:?' + repr(m).replace(' ', '_')
+
+    def render_value(tok, v):
+        try:
+            if tok == 'Rt' and type(v) is str: return 'ok=t:' + hx(v.encode('utf-8'))
+            if tok == 'Rd' and type(v) is bytes: return 'ok=b:' + hx(v)
+            if tok == 'Rm': return 'ok=m:' + hx(json.dumps(v, ensure_ascii=False).encode('utf-8'))
+        except Exception as e:  # noqa
+            return 'ok=?' + type(e).__name__
+        return 'ok=?' + type(v).__name__
+
     # ---------------------------------------------------------------- one real session
     async def session(spec):
         yr = random.Random(spec['yields'])
         o = {'calls': [], 'trace': [], 'steps': [], 'handed': None, 'out_n': 0, 'ws': None}
-        events = [client_event(t, k) for k, t in enumerate(spec['inbox'])]
+        events = [dict(e) for e in spec['events']]
         ev = [{'type': 'websocket.connect'} if spec['first'] else {'type': 'websocket.disconnect', 'code': 1001}] + list(events)
         never = asyncio.get_running_loop().create_future()
 
@@ -237,18 +412,24 @@ def run(ctx):
                 elif code is None and var % 2: await ws.close()
                 else: await ws.close(code)
             elif tok == 'St':
-                j = o['out_n']; o['out_n'] += 1
+                pay = st['pay']
                 if var % 2:
-                    rec['submitted'] = ('media', {'j': j}); await ws.send_media({'j': j})
+                    rec['submitted'] = ('media', pay['doc']); await ws.send_media(pay['doc'])
                 else:
-                    rec['submitted'] = ('text', f'out{j}'); await ws.send_text(f'out{j}')
+                    rec['submitted'] = ('text', pay['text']); await ws.send_text(pay['text'])
             elif tok == 'Sb':
-                j = o['out_n']; o['out_n'] += 1
+                pay = st['pay']
                 if var % 2 and spec['binh']:
-                    rec['submitted'] = ('binmedia', {'j': j}); await ws.send_media({'j': j}, WebSocketPayloadType.BINARY)
+                    rec['submitted'] = ('binmedia', pay['doc']); await ws.send_media(pay['doc'], WebSocketPayloadType.BINARY)
                 else:
-                    p = bytes([j, 0xff, 0]); rec['submitted'] = ('bytes', p)
+                    p = pay['data']; rec['submitted'] = ('bytes', p)
                     await ws.send_data(p if var < 2 else (bytearray(p) if var == 2 else memoryview(p)))
+            elif tok == 'Sx':      # a document the serializer rejects (TypeError), TEXT or BINARY
+                rec['submitted'] = ('badmedia', None)
+                await ws.send_media({1, 2}, WebSocketPayloadType.TEXT if var % 2 else WebSocketPayloadType.BINARY)
+            elif tok == 'Sn':      # send_media(BINARY) whatever handler is installed (MissingDependencyHandler raises RuntimeError)
+                rec['submitted'] = ('binmedia', st['pay']['doc']) if spec['binh'] else ('badmedia', None)
+                await ws.send_media(st['pay']['doc'], WebSocketPayloadType.BINARY)
             elif tok == 'Rt': rec['value'] = await ws.receive_text()
             elif tok == 'Rd': rec['value'] = await ws.receive_data()
             elif tok == 'Rm': rec['value'] = await ws.receive_media()
@@ -384,6 +565,58 @@ def run(ctx):
         hlog = ','.join(r['outcome'] for r in by['handler'])
         return line, f"sent={sent} log={log} hlog={hlog} esc={o['esc']} pub={o['pub']}"
 
+    def key_tok(ev, k, text):
+        if k not in ev: return 'a'
+        if ev[k] is None: return 'n'
+        return 'v' + hx(ev[k].encode('utf-8') if text else ev[k])
+
+    def in_tok(ev):
+        if ev['type'] == 'websocket.disconnect':
+            return 'd' + str(ev['code']) if 'code' in ev else 'dn'
+        return 'r' + key_tok(ev, 'text', True) + '/' + key_tok(ev, 'bytes', False)
+
+    def doc_tok(doc):
+        return hx(json.dumps(doc, ensure_ascii=False).encode('utf-8'))
+
+    def op_tok(spec, st):
+        """the operation with the payload it submits (decided by the step, not by the run)"""
+        tok, var, pay = st['tok'], st['var'], st['pay']
+        if tok == 'St': return 'Smt' + doc_tok(pay['doc']) if var % 2 else 'St' + hx(pay['text'].encode('utf-8'))
+        if tok == 'Sb': return 'Smb' + doc_tok(pay['doc']) if var % 2 and spec['binh'] else 'Sb' + hx(pay['data'])
+        if tok == 'Sx': return 'Smt!' if var % 2 else 'Smb!'
+        if tok == 'Sn': return 'Smb' + doc_tok(pay['doc'])
+        return tok
+
+    def tokens_wp(spec, steps, recs):
+        out = []
+        for i, st in enumerate(steps):
+            d = recs[i]['disc'] if i < len(recs) else None
+            out.append(f"{op_tok(spec, st)}:{st['catch']}:{'-' if d is None else d}")
+        return ';'.join(out)
+
+    def outcome_wp(r):
+        if r['outcome'] == 'ok' and r['tok'] in ('Rt', 'Rd', 'Rm'):
+            return render_value(r['tok'], r.get('value'))
+        return r['outcome']
+
+    def line_and_reply_wp(spec, o):
+        """the same session for the payload-carrying model: payloads in the line, payloads in the reply"""
+        by = {w: [r for r in o['steps'] if r['who'] == w] for w in ('mwreq', 'mwres', 'responder', 'handler')}
+        ver = tuple(map(int, spec['ver'].split('.')))
+        cu = spec['custom']
+        line = (f"case supH={0 if spec['ver'] == '2.0' else 1} supR={1 if ver >= (2, 3) else 0} err={spec['err']} bin={1 if spec['binh'] else 0} "
+                f"fail={'-' if spec['fail'] is None else spec['fail']} fault={spec['fault']} q={1 if spec['q'] else 0} first={spec['first']} "
+                f"route={spec['route']} inbox={','.join(in_tok(e) for e in spec['events'])} reasons={','.join(map(str, o['reasons']))} "
+                f"mwreq={tokens_wp(spec, spec['mwreq'], by['mwreq'])} mwres={tokens_wp(spec, spec['mwres'], by['mwres'])} "
+                f"script={tokens_wp(spec, spec['script'], by['responder'])} custom={'none' if cu is None else 'h:' + tokens_wp(spec, cu['steps'], by['handler'])} "
+                f"fd={'-' if o['fd'] is None else o['fd']}")
+        sent = ','.join(render_wp(c['m']) + ('' if c['ok'] else '!') for c in o['calls'])
+        if not spec['first']:
+            return line, f"sent={sent} log= hlog= esc={o['esc']} pub=-"
+        log = ','.join(outcome_wp(r) for r in o['steps'] if r['who'] != 'handler')
+        hlog = ','.join(outcome_wp(r) for r in by['handler'])
+        return line, f"sent={sent} log={log} hlog={hlog} esc={o['esc']} pub={o['pub']}"
+
     # ---------------------------------------------------------------- the statement oracles
     def valid_code(c):
         return isinstance(c, int) and not (c < 1000 or 1015 <= c <= 1999 or 1004 <= c <= 1006)
@@ -435,7 +668,7 @@ def run(ctx):
         ver = tuple(map(int, spec['ver'].split('.')))
         st = 'handshake'; code = None; pump_stopped = False; pump_stopped_send = False; finding3 = None
         nxt = 0            # index of the next client event the application will see
-        inbox = spec['inbox']
+        inbox = spec['events']
         finding = None
         for r in o['steps']:
             tok = r['tok']; k = tok[0]; out = r['outcome']
@@ -475,6 +708,7 @@ def run(ctx):
             elif k == 'S':
                 if st == 'handshake': want = 'ONA'
                 elif st == 'closed': want = f'WSD:{code or 1000}'
+                elif r['submitted'][0] == 'badmedia': want = 'PY'       # the media handler's serialize raised: an argument error, nothing is sent
                 elif lostq:
                     want = f"WSD:{r['handed'] or 1000}"; st = 'closed'; code = r['handed']
                 else:
@@ -484,7 +718,8 @@ def run(ctx):
                     good = ((kind == 'text' and m.get('text') == val and m.get('bytes') is None) or
                             (kind == 'media' and m.get('bytes') is None and isinstance(m.get('text'), str) and json.loads(m['text']) == val) or
                             (kind == 'bytes' and m.get('bytes') == val and type(m['bytes']) is bytes and m.get('text') is None) or
-                            (kind == 'binmedia' and m.get('bytes') == b'\x00J' + json.dumps(val, sort_keys=True).encode() and m.get('text') is None))
+                            (kind == 'binmedia' and type(m.get('bytes')) is bytes and m['bytes'][:2] == b'\x00J' and json.loads(m['bytes'][2:].decode('utf-8')) == val
+                             and m.get('text') is None))
                     if not good: return f'{where}: payload {val!r} ({kind}) reached the server as {m!r}'
                     if ok: want = 'ok'
                     else:
@@ -507,18 +742,26 @@ def run(ctx):
                     continue
                 elif nxt >= len(inbox): want = 'PY'      # the server's receive raised (queue 0 only)
                 else:
-                    t = inbox[nxt]; ev = client_event(t, nxt); nxt += 1
-                    if t[0] == 'd':
+                    ev = inbox[nxt]; nxt += 1
+                    if ev['type'] == 'websocket.disconnect':
                         c = ev.get('code', 1000); want = f'WSD:{c}'; st = 'closed'; code = c
                     else:
-                        exp = None
-                        if tok == 'Rt': want = 'ok' if t[0] == 't' else 'PTE'; exp = ev.get('text')
-                        elif tok == 'Rd': want = 'ok' if t == 'b' else 'PTE'; exp = ev.get('bytes')
-                        elif t == 't1': want = 'ok'; exp = json.loads(ev['text'])
-                        elif t == 't0': want = 'VEO'
+                        # the statement: receive_text needs a text payload, receive_data a binary one (else PayloadTypeError); receive_media
+                        # hands the payload to the handler of its type; the value is the client's payload, unchanged
+                        exp = None; text = ev.get('text'); data = ev.get('bytes')
+                        if tok == 'Rt': want = 'ok' if text is not None else 'PTE'; exp = text
+                        elif tok == 'Rd': want = 'ok' if data is not None else 'PTE'; exp = data
+                        elif text is not None:
+                            try: exp = json.loads(text); want = 'ok'
+                            except ValueError: want = 'VEO'
+                        elif data is None: want = 'PTE'
+                        elif not spec['binh']: want = 'PY'           # no msgpack: MissingDependencyHandler
                         else:
-                            want = 'ok' if spec['binh'] else 'PY'; exp = ('bin', ev['bytes'])
-                        if out == 'ok' and want == 'ok' and r.get('value') != exp:
+                            try:
+                                if data[:2] != b'\x00J': raise ValueError
+                                exp = json.loads(data[2:].decode('utf-8')); want = 'ok'
+                            except ValueError: want = 'VEO'
+                        if out == 'ok' and want == 'ok' and (r.get('value') != exp or type(r.get('value')) is not type(exp)):
                             return f'{where}: client message #{nxt - 1} {ev!r} arrived as {r.get("value")!r}'
                 if out != want: return f'{where}: got {out}, the documented outcome is {want}'
             elif k == 'C':
@@ -626,6 +869,7 @@ def run(ctx):
         return None
 
     sess = ctx.session('falcon.asgi.App websocket session = Ws model (handleMw)', 'wsdriver')
+    sess_wp = ctx.session('falcon.asgi.App websocket session with payloads (hex of every payload sent / value received) = Wp model (handleMw)', 'wpdriver')
     F_NAME = 'receive in accepted state delivers the next message'
     known_recorded = [0]
     F_WHAT = 'receive_*() raised AssertionError after a rejected close(): the failed close stopped the pump (max_receive_queue > 0)'
@@ -633,16 +877,22 @@ def run(ctx):
 
     async def one(spec, origin):
         o = await session(spec)
-        line, reply = line_and_reply(spec, o)
-        sess.case({'spec': {k: v for k, v in spec.items() if k != 'yields'}, 'origin': origin})
-        sess.op(line, reply)
-        case = {k: spec[k] for k in ('ver', 'q', 'first', 'route', 'inbox', 'starve', 'fail', 'fault', 'err', 'binh', 'mw_present', 'yields')}
-        case['script'] = [(s['tok'], s['catch'], s['var']) for s in spec['script']]
-        case['mwreq'] = [(s['tok'], s['catch'], s['var']) for s in spec['mwreq']]
-        case['mwres'] = [(s['tok'], s['catch'], s['var']) for s in spec['mwres']]
-        case['custom'] = None if spec['custom'] is None else {'ws': spec['custom']['ws'], 'steps': [(x['tok'], x['catch']) for x in spec['custom']['steps']]}
-        seen = {'server_saw': [c['r'] + ('' if c['ok'] else '!') for c in o['calls']],
-                'ops': [(r['who'], r['tok'], r['outcome']) for r in o['steps']], 'escaped': o['esc']}
+        wline, wreply = line_and_reply_wp(spec, o)
+        sess_wp.case({'spec': {k: v for k, v in spec.items() if k != 'yields'}, 'origin': origin})
+        sess_wp.op(wline, wreply)
+        if spec['wp_only']:
+            line = wline        # client events / documents the kind-level model has no kind for
+        else:
+            line, reply = line_and_reply(spec, o)
+            sess.case({'spec': {k: v for k, v in spec.items() if k != 'yields'}, 'origin': origin})
+            sess.op(line, reply)
+        case = {k: spec[k] for k in ('ver', 'q', 'first', 'route', 'inbox', 'events', 'starve', 'fail', 'fault', 'err', 'binh', 'mw_present', 'yields')}
+        case['script'] = [(s['tok'], s['catch'], s['var'], s['pay']) for s in spec['script']]
+        case['mwreq'] = [(s['tok'], s['catch'], s['var'], s['pay']) for s in spec['mwreq']]
+        case['mwres'] = [(s['tok'], s['catch'], s['var'], s['pay']) for s in spec['mwres']]
+        case['custom'] = None if spec['custom'] is None else {'ws': spec['custom']['ws'], 'steps': [(x['tok'], x['catch'], x['pay']) for x in spec['custom']['steps']]}
+        seen = {'server_saw': [render_wp(c['m']) + ('' if c['ok'] else '!') for c in o['calls']],
+                'ops': [(r['who'], r['tok'], outcome_wp(r)) for r in o['steps']], 'escaped': o['esc']}
         bad = oracle_monitor(spec, o)
         ctx.oracle('events sent to the server form a legal ASGI session (<=1 accept, data only while open, <=1 close, nothing after close/loss, reason/headers only if supported)',
                    bad is None, bad, dict(case, observed=seen))
@@ -683,6 +933,8 @@ def run(ctx):
         rnd = ctx.rng
         for _ in range(ctx.n(8000, 60000)):
             await one(gen_random(rnd), 'random')
+        for _ in range(ctx.n(3000, 24000)):
+            await one(gen_payload_session(rnd), 'payload')
         i, k = ctx.shard
         maxlen = 2 if ctx.quick else 3
         for j, spec in enumerate(gen_exhaustive(maxlen)):
@@ -690,6 +942,7 @@ def run(ctx):
                 await one(spec, 'exhaustive')
     asyncio.run(main())
     sess.finish()
+    sess_wp.finish()
 
 
 LEVEL_TEXT = ('Machine-checked proofs (Lean 4) over an executable model that transcribes falcon/asgi/ws.py (accept/close/send_*/receive_*, _send with the server-error '
